@@ -23,6 +23,17 @@ fn judge(case: &Case<Program>, rep: &mut Report) {
     let Some(file) = usable(case, "C03", rep, true) else { return };
     let text = case.outcome.single().unwrap_or("");
     let norm = normalise(text);
+    let srctext = &case.files[0].source;
+    let layout = if srctext.contains("\r\n") {
+        "crlf-tabs"
+    } else if srctext.contains("/* shared */") {
+        "behind-block-comment"
+    } else if srctext.lines().any(|l| l.trim_start().starts_with("#[typeshare")) {
+        "attribute-starts-line"
+    } else {
+        "attribute-never-starts-line"
+    };
+    rep.count(&format!("layout_{layout}"), 1);
     let mut expected_defs: Vec<(String, Option<String>)> = vec![]; // (item stem, variant stem for helpers)
     for it in &case.model.items {
         let Some(st) = first_stem(&it.ident) else { continue };
@@ -228,6 +239,9 @@ pub fn run(ctx: &Ctx) -> (Spec, Report) {
             let lang = ALL_LANGS[rng.below(6)];
             let prog = gen_program(rng, &p, Some(lang));
             let src = prog.render(rng, &RenderOpts { vary: true, prelude: false, strip_typeshare: false });
+            // a third of the files in a layout where no attribute starts its line
+            let layout = if rng.chance(1, 3) { rng.range(1, 4) } else { 0 };
+            let src = relayout(&src, layout);
             let has_const = prog.items.iter().any(|i| matches!(i.kind, Kind::Const { .. }));
             let generic_enum = prog.items.iter().any(|i| matches!(i.kind, Kind::Enum { .. }) && !i.generics.is_empty());
             let generic_alias = prog.items.iter().any(|i| matches!(i.kind, Kind::Alias(_) | Kind::Newtype(_)) && !i.generics.is_empty());
@@ -278,7 +292,7 @@ pub fn run(ctx: &Ctx) -> (Spec, Report) {
     }
     let spec = Spec {
         level: "exploration",
-        rule: format!("{n} generated files mixing annotated and un-annotated items at module depth 0-4, #[typeshare] / #[typeshare::typeshare] / with arguments, serde(skip) / typeshare(skip) on random subsets of fields, variants and struct-variant fields, any attribute order, x up to 6 languages; definitions and members are attributed to source elements by unique stems and compared with the generator's item list (count, kind, order); decoy and skipped stems are searched over the whole output; plus 'cannot be generated' cells (const / union / DateTime per backend): error or definition, never success without definition; distinct = (language, item kind, module depth, annotation spelling) and (language, struct-variant, has-skipped)"),
+        rule: format!("{n} generated files mixing annotated and un-annotated items at module depth 0-4, #[typeshare] / #[typeshare::typeshare] / with arguments, serde(skip) / typeshare(skip) on random subsets of fields, variants and struct-variant fields, any attribute order, five source layouts (rustfmt-like, attribute behind another attribute or a block comment on the same line, all attributes and the item on one line, CRLF + tabs), x up to 6 languages; definitions and members are attributed to source elements by unique stems and compared with the generator's item list (count, kind, order); decoy and skipped stems are searched over the whole output; plus 'cannot be generated' cells (const / union / DateTime per backend): error or definition, never success without definition; distinct = (language, item kind, module depth, annotation spelling) and (language, struct-variant, has-skipped)"),
         assumptions: vec!["stems (q + 5 letters, no other 'q' in generated words) identify source elements after case conversion".into()],
         exhaustive: None,
     };
